@@ -15,6 +15,11 @@ F10 = 3628800
 
 def hash_case(rng, pin, seed, kind):
     ss, cs_ = rbytes(rng, 16), rbytes(rng, 16)
+    r = rng.random()
+    if r < 0.06: cs_ = ss                      # the same 16 bytes in both roles
+    elif r < 0.09: cs_ = ss[::-1]
+    elif r < 0.12: ss = bytes(16)
+    elif r < 0.15: cs_ = bytes(16)
     h = pyref.pin_hash(pin, seed, ss, cs_)
     out = [Case("pin.hash %d %d %s %s" % (pin, seed, ss.hex(), cs_.hex()), kind, ("some %s ~0" % h.hex()) if h else "none ~0")]
     if h:
